@@ -42,6 +42,11 @@ def check(rep, ctx):
         rep.check(R_OV, False, construct=o["function"], stmt=o["stmt"],
                   message=f"`{o['stmt']}` requests {o['size']} bytes: more than the item holds whenever the other operand is larger -- the bytes of "
                           f"the next field, element or message are consumed and discarded", file=o["file"], line=o["line"])
+    for o in _scan.negative_size_reads(ctx, ["kio.serial.readers"]):
+        rep.check(R_OV, False, construct=o["function"], stmt=o["stmt"],
+                  message=f"`{o['stmt']}`: the size {o['param']!r} is never compared for (in)equality with the length read nor tested for being negative: "
+                          f"a corrupt length prefix of -2 or lower makes read() return the rest of the stream, and it is accepted as the value",
+                  file=o["file"], line=o["line"])
     for o in _scan.fixed_chunk_reads(ctx, ["kio.serial.readers", "kio.serial._parse", "kio.records.readers"]):
         rep.check(R_OV, False, construct=o["function"], stmt=o["stmt"],
                   message=f"`{o['stmt']}` in a loop takes {o['size']} bytes at a time whatever is still missing: unless the length is a multiple of "
